@@ -356,6 +356,7 @@ def run_scan(ck):
             run_label_tie(ck, lines)
             run_prof_tie(ck, lines)
             run_tempo_tie(ck, lines)
+            run_prom_tie(ck, lines)
         if name == "sweep":
             # every endpoint must have been exercised: a request that stops answering with SQL is a silent loss of coverage
             by_ep = {}
@@ -753,6 +754,99 @@ def run_prof_tie(ck, lines):
                       "request": request_of(c), "replay": "bin/check C13 --replay <this file>"})
     ck.extra["prof_model_ties"] = len(cases) + len(pt)
     ck.coverage["evaluations"] += len(cases) + len(pt)
+
+
+# ---------------------------------------------------------------- Prometheus Select / label fetch: C17's model vs recorded text
+def _m(n, op, v):
+    return '{| m_name := "%s"; m_op := %s; m_val := "%s" |}' % (n, op, v)
+
+
+UP = _m("__name__", "MEq", "up")
+PROM_EPS = {  # endpoint -> (hints.Func, hints.Range ms, matcher list per selector)
+    "prom_range_downsample": ("", 0, [[_m("a", "MEq", "b"), UP]]),
+    "prom_range_raw_step": ("", 0, [[_m("a", "MEq", "b"), UP]]),
+    "prom_range_rate": ("rate", 60000, [[_m("a", "MEq", "b"), UP]]),
+    "prom_range_sum_over_time": ("sum_over_time", 300000, [[_m("a", "MEq", "b"), UP]]),
+    "prom_range_quantile_over_time": ("quantile_over_time", 120000, [[_m("a", "MEq", "b"), UP]]),
+    "prom_range_sum_by": ("sum", 0, [[_m("a", "MRe", "b.*"), _m("c", "MNeq", "d"), UP]]),
+    "prom_range_offset_1d": ("", 0, [[_m("a", "MEq", "b"), UP], [_m("a", "MEq", "c"), UP]]),
+    "prom_range_offset_36h": ("", 0, [[_m("a", "MEq", "b"), UP], [_m("a", "MEq", "c"), UP]]),
+    "prom_range_rate_offset_1w": ("rate", 300000, [[_m("a", "MEq", "b"), UP], [_m("a", "MEq", "c"), UP]]),
+    "prom_range_subquery": ("max_over_time", 0, [[_m("a", "MEq", "b"), UP]]),
+    "prom_instant_offset_1d": ("", 0, [[_m("a", "MEq", "b"), UP], [_m("a", "MEq", "c"), UP]]),
+    "prom_instant": ("", 0, [[_m("a", "MEq", "b"), UP]])}
+
+
+def run_prom_tie(ck, lines):
+    """text of PromSel.select_sql / labels_fetch (C17's transcription, under prom_every_scan_bounded and
+    prom_labels_fetch_date_covers) = statement recorded from /api/v1/query(_range), byte for byte, inside C13's own run"""
+    step_of = {}
+    for l in lines:
+        if l["kind"] == "req" and l["ep"] in PROM_EPS:
+            m = re.search(r"[?&]step=(\d+)", l.get("url", ""))
+            step_of[l["req"]] = int(m.group(1)) * 1000 if m else 0
+    sel_cases, fetch_cases, seen, last = [], [], set(), {}
+    classes = ("plain-noon", "cross-midnight", "first-half-hour", "month-end", "two-days", "random", "leap-day")
+    for l in lines:
+        if l["kind"] != "stmt" or l["ep"] not in PROM_EPS or l["zone"] not in (0, 10800):
+            continue
+        fetch = " FROM time_series" in l["sql"] and "JSONExtractKeysAndValues" in l["sql"]
+        sel = l.get("sel", 0)
+        if not fetch:
+            lo = re.search(r"\(samples\.timestamp_ns\) >= \((\d+)\)", l["sql"])
+            hi = re.search(r"\(samples\.timestamp_ns\) (<=|<) \((\d+)\)", l["sql"])
+            if not lo or not hi:
+                continue
+            start = int(lo.group(1)) // 1000000
+            end = int(hi.group(2)) // 1000000 - (1 if hi.group(1) == "<" else 0)
+            last[(l["req"], sel)] = (start, end)
+        want = classes[(len(l["ep"]) + (3 if l["cluster"] else 0)) % len(classes)]
+        key = (l["ep"], l["cluster"], sel, fetch)
+        if l["class"] != want or key in seen or (l["req"], sel) not in last:
+            continue
+        seen.add(key)
+        start, end = last[(l["req"], sel)]
+        if fetch:
+            fps = re.search(r"fingerprint IN \(([0-9,]*)\)", l["sql"])
+            fetch_cases.append((l, [int(x) for x in fps.group(1).split(",") if x] if fps else [], start, end))
+        else:
+            fn, rng, mss = PROM_EPS[l["ep"]]
+            sel_cases.append((l, start, end, step_of.get(l["req"], 0), fn, rng, mss[min(sel, len(mss) - 1)]))
+    if not sel_cases or not fetch_cases:
+        ck.obligation("Prometheus statements of the sweep compared with PromSel", False, "no statement found")
+        return
+    items = ['{| ps_id := %d; ps_cluster := %s; ps_db := "verif"; ps_h := {| h_start := %d; h_end := %d; h_step := %d; h_func := "%s"; h_range := %d |}; '
+             'ps_ms := [%s]; ps_sql := %s |}' % (i, "true" if l["cluster"] else "false", st, en, step, fn, rng, "; ".join(ms), coq_string(l["sql"]))
+             for i, (l, st, en, step, fn, rng, ms) in enumerate(sel_cases)]
+    fitems = ['{| pf_id := %d; pf_cluster := %s; pf_fps := [%s]; pf_from_ms := %d; pf_to_ms := %d; pf_sql := %s |}' % (
+        i, "true" if l["cluster"] else "false", "; ".join("%d%%N" % x for x in fps), st, en, coq_string(l["sql"]))
+        for i, (l, fps, st, en) in enumerate(fetch_cases)]
+    txt = ("From Coq Require Import List ZArith NArith String Ascii Bool.\n"
+           "From Qryn Require Import lib.Strs model.Sql model.Logql model.LogqlPlan model.PromSel model.ScansPlanners.\n"
+           "Import ListNotations.\nOpen Scope string_scope.\nOpen Scope Z_scope.\n"
+           "Definition cases : list ps_case := [\n " + ";\n ".join(items) + "].\n"
+           "Definition M := Eval vm_compute in ps_mismatches cases.\nPrint M.\n"
+           "Definition fcases : list pf_case := [\n " + ";\n ".join(fitems) + "].\n"
+           "Definition F := Eval vm_compute in pf_mismatches fcases.\nPrint F.\n")
+    rc, out = ck.coq_eval("C13_prom", txt, timeout=600)
+    flat = " ".join((out or "").split())
+    m = re.search(r"M = \[(.*?)\]\s*: list Z", flat)
+    f = re.search(r"F = \[(.*?)\]\s*: list Z", flat)
+    if rc != 0 or not m or not f:
+        ck.obligation("PromSel evaluated on the Prometheus requests of the sweep", False, (out or "")[-1500:])
+        return
+    bad = [int(x) for x in re.findall(r"-?\d+", m.group(1))]
+    fbad = [int(x) for x in re.findall(r"-?\d+", f.group(1))]
+    eps = {c[0]["ep"] for c in sel_cases}
+    ck.obligation("correspondence: PromSel.select_sql (hints of the request) = statement Select sent, byte for byte, on %d selects (%d endpoints incl. the "
+                  "second selector of the offset queries, both layouts, raw and down-sampled paths)" % (len(sel_cases), len(eps)),
+                  not bad and len(eps) == len(PROM_EPS),
+                  "; ".join("%s sel %d %s %s hints %s: %.500s" % (sel_cases[i][0]["ep"], sel_cases[i][0].get("sel", 0), "cluster" if sel_cases[i][0]["cluster"] else "single",
+                                                                 sel_cases[i][0]["class"], sel_cases[i][1:6], sel_cases[i][0]["sql"]) for i in bad[:3]))
+    ck.obligation("correspondence: render (PromSel.labels_fetch) = recorded label fetch of the same Select, byte for byte, on %d statements" % len(fetch_cases),
+                  not fbad, "; ".join("%s %s [%d,%d]: %.300s" % (fetch_cases[i][0]["ep"], fetch_cases[i][0]["class"], fetch_cases[i][2], fetch_cases[i][3], fetch_cases[i][0]["sql"]) for i in fbad[:3]))
+    ck.extra["prom_model_ties"] = len(sel_cases) + len(fetch_cases)
+    ck.coverage["evaluations"] += len(sel_cases) + len(fetch_cases)
 
 
 # ---------------------------------------------------------------- Tempo v1: statement model vs recorded text
